@@ -16,7 +16,7 @@ from ..variants import Variant
 from .common import MatcherAtoms, calls_resolving_to, make_metric_objs, matcher_loop, metric_registry
 
 INFO = {
-    "explanation": "(R03.7) every matcher is run abstractly on a symbolic pair up to its call of the candidate function (wrappers inlined): prediction array, reference array, reference labels and the configured metric arrive each in their own parameter; C03 decided clause-wise from the source: (R03.1) the pair codec of _calc_overlapping_labels is interpreted pointwise over exact polynomials for the four sign classes of (prediction label, reference label) - filter accepts exactly overlapping pairs, decode returns (ref,pred); (R03.2) the candidate list is abstractly evaluated with symbolic candidates: element structure (score,(ref,pred)), starmap binding, sorted on the score with reverse == not decreasing on every path; (R03.3) score_beats_threshold bodies (both siblings) evaluated on the full table decreasing x ordering(score,threshold) incl. falsy thresholds; (R03.4) at every add_labelmap_entry call in a matcher the path condition implies 'meets threshold', 'prediction unassigned' and, without many-to-one, 'reference unassigned' on all rows of the truth table; (R03.5) no break/return/raise skips candidates, callee raise condition excluded. Candidate discovery is complete only if pair codes cannot wrap: container obligations of the encoding for every input dtype, also when the container is computed from the data (R09.1, delegated). Further delegated: R15.8 (the matching path writes into no received array), R15.7 (no memo between calls).",
+    "explanation": "(R03.7) every matcher is run abstractly on a symbolic pair up to its call of the candidate function (wrappers inlined): prediction array, reference array, reference labels and the configured metric arrive each in their own parameter; C03 decided clause-wise from the source: (R03.1) the pair codec of _calc_overlapping_labels is interpreted pointwise over exact polynomials for the four sign classes of (prediction label, reference label) - filter accepts exactly overlapping pairs, decode returns (ref,pred); (R03.2) the candidate list is abstractly evaluated with symbolic candidates: element structure (score,(ref,pred)), starmap binding, sorted on the score with reverse == not decreasing on every path; (R03.3) score_beats_threshold bodies (both siblings) evaluated on the full table decreasing x ordering(score,threshold) incl. falsy thresholds; (R03.4) at every add_labelmap_entry call in a matcher the path condition implies 'meets threshold', 'prediction unassigned' and, without many-to-one, 'reference unassigned' on all rows of the truth table; (R03.5) no break/return/raise skips candidates, callee raise condition excluded. Candidate discovery is complete only if pair codes cannot wrap: container obligations of the encoding for every input dtype, also when the container is computed from the data (R09.1, delegated). Delegated also: the relabelling that delivers the assignment (R04.2 fresh labels above every reference label, R04.4 label table and outputs fit their dtype). Further delegated: R15.8 (the matching path writes into no received array), R15.7 (no memo between calls).",
     "trusted_base": ["Python semantics of the modelled AST subset (DESIGN appendix A.1)", "numpy primitives: astype, elementwise + * // %, masked store, np.unique (appendix A.2/A.4)", "multiprocessing.Pool.starmap preserves order and binds tuple elements positionally"],
     "assumptions": ["labels are non-negative integers, 0 = background; ref_labels is the non-empty tuple of reference labels (matchers run after the zero-instance check)", "all four combinations of (prediction already assigned, reference already assigned) are reachable in the greedy loop"],
     "not_decided": ["that the matching metric returns the documented score (C06/C07)", "tie-breaking among equal scores (property excludes ties)"],
@@ -156,6 +156,30 @@ class _Sorted:
         self.reverse = reverse
 
 
+class _Thr(Unknown):
+    """The caller-supplied threshold (a number: not None, truth value unknown - it may be 0)."""
+
+    __slots__ = ()
+
+
+def _is_beats_filter(prog, f: Func, cond: ast.expr, elem: str, metric_param: str, thr_param: str) -> bool:
+    """cond  ==  <metric>.score_beats_threshold(<elem>[0], <threshold parameter>)"""
+    if not (isinstance(cond, ast.Call) and isinstance(cond.func, ast.Attribute) and isinstance(cond.func.value, ast.Name) and cond.func.value.id == metric_param):
+        return False
+    targets = [c for c in prog.resolve_call(f, cond, fanout=False) if isinstance(c, Func)]
+    if not targets or any(t.name != prog.anchor_name("metrics.metrics:Metric.score_beats_threshold").split(".")[-1] for t in targets):
+        return False
+    b, problems = bind_args(targets[0], cond)
+    if problems:
+        return False
+    ps = [p.name for p in targets[0].call_params]
+    if len(ps) < 2:
+        return False
+    sc, th = b.get(ps[0]), b.get(ps[1])
+    score_ok = isinstance(sc, ast.Subscript) and isinstance(sc.value, ast.Name) and sc.value.id == elem and isinstance(sc.slice, ast.Constant) and sc.slice.value == 0
+    return score_ok and isinstance(th, ast.Name) and th.id == thr_param
+
+
 class _Score(Sym):
     pass
 
@@ -273,6 +297,31 @@ class CandInterp(Interp):
             return it.items
         return super().iterate(it, node)
 
+    def ev_ListComp(self, e):
+        # [x for x in <candidates> if cond(x)]: an order-preserving selection
+        if len(e.generators) == 1 and isinstance(e.generators[0].target, ast.Name) and isinstance(e.elt, ast.Name) and e.elt.id == e.generators[0].target.id and e.generators[0].ifs:
+            src = self.eval(e.generators[0].iter)
+            if isinstance(src, (_Sorted, list)):
+                g = e.generators[0]
+                kept = []
+                saved = self.env.get(g.target.id, None)
+                for x in (src.items if isinstance(src, _Sorted) else src):
+                    self.env[g.target.id] = x
+                    if all(self.truth(self.eval(c), c) for c in g.ifs):
+                        kept.append(x)
+                if saved is not None:
+                    self.env[g.target.id] = saved
+                self.root.__dict__.setdefault("filters", []).append((list(g.ifs), g.target.id, e))
+                if isinstance(src, _Sorted):
+                    return _Sorted(kept, src.key_ok, src.reverse)
+                return kept
+        return super().ev_ListComp(e)
+
+    def compare(self, op, l, r, node):
+        if isinstance(op, (ast.Is, ast.IsNot)) and ((isinstance(l, _Thr) and r is None) or (isinstance(r, _Thr) and l is None)):
+            return isinstance(op, ast.IsNot)
+        return super().compare(op, l, r, node)
+
 
 class _ListSort:
     def __init__(self, lst, interp=None):
@@ -297,19 +346,25 @@ def check_candidates(ctx: Ctx):
                 args[p.name] = Sym("REF_ARR")
             elif "metric" in lp:
                 args[p.name] = me
+            elif "thr" in lp:
+                args[p.name] = Unknown("param:" + p.name)  # absent (None) or a number: both explored
             elif p.default is not None:
                 args[p.name] = Unknown("param:" + p.name)
             else:
                 args[p.name] = Unknown("param:" + p.name)
         holder = {}
+        its_ = []
+        metric_param = next((p.name for p in f.params if "metric" in p.name.lower()), None)
+        thr_param = next((p.name for p in f.params if "thr" in p.name.lower()), None)
 
         def make(prefix, args=args, me=me):
             it = CandInterp(prog, f, dict(args), me, overlap, prefix=prefix)
             holder["it"] = it
+            its_.append(it)
             return it
 
         outs = enumerate_paths(make)
-        for out in outs:
+        for out, it_run in zip(outs, its_):
             n_paths += 1
             construct = f"{f.qual}:decreasing={dec}"
             dec_txt = [(norm(n) if isinstance(n, ast.AST) else "?", d) for n, v, d in out.decisions]
@@ -340,6 +395,15 @@ def check_candidates(ctx: Ctx):
                 ctx.violated("R03.2", f, out.node, construct, f"sort direction reverse={bool(v.reverse)} but best-first needs reverse={want_rev}", wit)
                 continue
             # element structure (score[REFk,PREDk], (REFk, PREDk))
+            filters = it_run.root.__dict__.get("filters", [])
+            if filters and len(v.items) < 2:
+                # candidates were dropped: acceptable only as the caller's own threshold test moved here
+                okf = thr_param is not None and all(len(conds) == 1 and _is_beats_filter(prog, f, conds[0], elem, metric_param, thr_param) for conds, elem, _ in filters)
+                if okf:
+                    ctx.ok("R03.2", f, out.node, construct, "ordered best-first; only candidates failing the caller-supplied threshold are dropped (order kept)", wit)
+                else:
+                    ctx.undecided("R03.2", f, out.node, construct, "candidates are dropped by a condition that is not the threshold test on the caller-supplied threshold", {**wit, "filter": [norm(c) for conds, _, _ in filters for c in conds]})
+                continue
             good = len(v.items) == 2
             for it_ in v.items:
                 if not (isinstance(it_, tuple) and len(it_) == 2 and isinstance(it_[0], _Score) and isinstance(it_[1], tuple) and len(it_[1]) == 2):
@@ -457,6 +521,51 @@ def pure_labelmap_method(prog):
     return pure
 
 
+def candidate_prefilter(ctx: Ctx, f: Func) -> tuple[Optional[ast.expr], Optional[str]]:
+    """Does the matcher `f` obtain its candidates already filtered by its own threshold?
+    Returns (threshold argument expression, None) if the candidate generator, given a threshold
+    that is a number (possibly 0), returns on EVERY path only candidates passing
+    metric.score_beats_threshold(score, threshold); (None, reason) if a threshold is handed over but
+    some path does not filter; (None, None) if no threshold is handed over."""
+    prog = ctx.prog
+    gen = prog.func("_functionals:_calc_matching_metric_of_overlapping_labels")
+    overlap = prog.func("_functionals:_calc_overlapping_labels")
+    thr_param = next((p.name for p in gen.params if "thr" in p.name.lower()), None)
+    metric_param = next((p.name for p in gen.params if "metric" in p.name.lower()), None)
+    if thr_param is None:
+        return None, None
+    thr_arg = None
+    for c in calls_resolving_to(prog, f, gen):
+        b, problems = bind_args(gen, c)
+        if thr_param in b and not (isinstance(b[thr_param], ast.Constant) and b[thr_param].value is None):
+            thr_arg = b[thr_param]
+    if thr_arg is None:
+        return None, None
+    for dec in (False, True):
+        mv, me = make_metric_objs(prog, dec)
+        args = {}
+        for p in gen.params:
+            lp = p.name.lower()
+            args[p.name] = Sym("PRED_ARR") if lp.startswith("pred") else Sym("REF_LABELS") if ("label" in lp and lp.startswith("ref")) else Sym("REF_ARR") if lp.startswith("ref") else me if "metric" in lp else _Thr("threshold") if p.name == thr_param else Unknown("param:" + p.name)
+        its_ = []
+
+        def make(prefix, args=args, me=me):
+            it = CandInterp(prog, gen, dict(args), me, overlap, prefix=prefix)
+            its_.append(it)
+            return it
+
+        outs = enumerate_paths(make)
+        for out, it in zip(outs, its_):
+            if out.kind != "return":
+                continue
+            filters = it.root.__dict__.get("filters", [])
+            ok = bool(filters) and all(len(conds) == 1 and _is_beats_filter(prog, gen, conds[0], elem, metric_param, thr_param) for conds, elem, _ in filters)
+            if not ok:
+                dtxt = "; ".join(f"{norm(n) if isinstance(n, ast.AST) else '?'}={d}" for n, v, d in out.decisions if isinstance(v, _Thr))
+                return None, f"{gen.qual} returns unfiltered candidates when [{dtxt or 'always'}] although a threshold (a number, possibly 0) was handed over"
+    return thr_arg, None
+
+
 def check_naive(ctx: Ctx, only: Optional[str] = "NaiveThresholdMatching"):
     prog = ctx.prog
     add = add_entry_func(ctx)
@@ -485,6 +594,15 @@ def check_naive(ctx: Ctx, only: Optional[str] = "NaiveThresholdMatching"):
             pcs = path_condition(f, c)
             stale = [pc for pc in pcs if is_stale(pc, pure_labelmap_method(prog))]
             prem = [atoms.form.compile(pc.expr) if pc.polarity else _neg(atoms.form.compile(pc.expr)) for pc in pcs if pc not in stale]
+            # the threshold test may have moved into the candidate generator: every candidate of the
+            # loop then already passed it (established by running the generator, see candidate_prefilter)
+            pre_thr, pre_why = candidate_prefilter(ctx, f)
+            if pre_thr is not None:
+                mexpr = next((n for n in walk_no_nested(f.node) if isinstance(n, ast.keyword) and n.arg and "metric" in n.arg), None)
+                synth = ast.parse(f"{norm(mexpr.value) if mexpr is not None else 'self._matching_metric'}.score_beats_threshold({score}, {norm(pre_thr)})", mode="eval").body
+                ast.copy_location(synth, c)
+                ast.fix_missing_locations(synth)
+                prem.append(atoms.form.compile(synth))
             form = atoms.form
             dec_key = next((k for k in form.domains if k.startswith("dec:")), None)
             cmp_key = _score_thr_key(form, score)
@@ -506,7 +624,7 @@ def check_naive(ctx: Ctx, only: Optional[str] = "NaiveThresholdMatching"):
             else:
                 # no modelled score/threshold comparison on the path: a definite violation only if the
                 # path condition contains nothing unmodelled that could be that comparison in disguise
-                ctx.decide("R03.4a", f, c, construct, "assignment is guarded by a comparison of the candidate's score with the matching threshold", None if form.opaque else False, {"path_condition": pc_txt, "unmodelled_conditions": sorted(form.opaque.values())[:4]})
+                ctx.decide("R03.4a", f, c, construct, "assignment is guarded by a comparison of the candidate's score with the matching threshold", None if form.opaque else False, {"path_condition": pc_txt, "unmodelled_conditions": sorted(form.opaque.values())[:4], **({"candidate_generator": pre_why} if pre_why else {})})
             # (b) prediction not yet assigned (callee's raise condition excluded => terminates with a result)
             v, w = implication(form, prem, lambda a: not a["cp"], atoms.feasible)
             if stale and v is False:
@@ -738,6 +856,12 @@ def check(ctx: Ctx):
 
     _c03._guarded(ctx, "R15.8", _c15.check_param_aliasing)
     _c03._guarded(ctx, "R15.7", _c15.check_globals)  # no memo between calls: scores depend on the arrays handed in only
+    # the assignment is delivered as relabelled maps: each matched prediction carries its reference's
+    # label, every other prediction a label no reference has, in a dtype that holds them (R04.2/R04.4)
+    from . import c04 as _c04
+
+    _c04.check_chained_replacement(ctx)
+    _c03._guarded(ctx, "R04.2", _c04.check_relabel)
 
 
 # ----------------------------------------------------------------------------------------
